@@ -1,5 +1,5 @@
 from .speclib import REG  # noqa
-from . import c_graph, c_rules, c_rule_builder, l_algebra, l_semantics, l_misc, c_strings, c_networkx, c_filters, c_diagram, c_parser, c_converter, c_layers, c_layermap  # noqa
+from . import c_graph, c_rules, c_rule_builder, l_algebra, l_semantics, l_misc, c_strings, c_networkx, c_filters, c_diagram, c_parser, c_converter, c_layers, c_layermap, l_layers  # noqa
 from . import c_messages  # noqa  (message generator)
 from . import c_entry, c_draw  # noqa  (entry points / glue, draw: after the stage contracts they compose)
 from . import c_graphbuild  # noqa  (graph construction; extends the NetworkxGraph record declared in c_networkx)
